@@ -414,6 +414,11 @@ func (c17) invalid(c *fw.Case, d *ptrDoc) {
 	case k == 12 || k == 14 && d.lastKind != stepArray:
 		d.root["$defs"].(map[string]any)["B"] = true
 		bad, class = "/$defs/B/"+gen.Pick(r, []string{"not", "properties", "allOf/0"}), "into-boolean-schema"
+		if r.IntN(2) == 0 {
+			// ... and into false, except through "not" itself (pinned known finding KF-C17-1: false is held as {"not": {}})
+			d.root["$defs"].(map[string]any)["B"] = false
+			bad, class = "/$defs/B/"+gen.Pick(r, []string{"not/not", "properties", "allOf/0", "not/properties", "items", "else"}), "into-false-schema"
+		}
 	default:
 		bad, class = d.pointer+"/not", "past-the-leaf" // the leaf has no "not"
 	}
@@ -437,4 +442,21 @@ func (c17) invalid(c *fw.Case, d *ptrDoc) {
 		return
 	}
 	c.Nontrivial("invalid|" + class + "|" + d.lastKeyword)
+}
+
+// RunKnown re-executes the pinned known finding of C17.
+func (c17) RunKnown(id string) (bool, string, error) {
+	if id != "KF-C17-1" {
+		return false, "", fmt.Errorf("unknown known-finding id %s", id)
+	}
+	// the boolean schema false has no members, so "#/$defs/f/not" names no location; the package represents false as
+	// {"not": {}} and the pointer walk finds that internal "not"
+	var s jsonschema.Schema
+	if err := json.Unmarshal([]byte(`{"$ref":"#/$defs/f/not","$defs":{"f":false}}`), &s); err != nil {
+		return false, "", err
+	}
+	if _, err := s.Resolve(nil); err == nil {
+		return true, `Resolve accepts {"$ref":"#/$defs/f/not","$defs":{"f":false}}`, nil
+	}
+	return false, "", nil
 }
